@@ -561,7 +561,24 @@ func genC10(p *Plan, tier string) {
 		lib  bool
 	}
 	items := make([]item, 0, k)
+	siblings := r.Bool(0.35)
+	var base *Req
 	for i := 0; i < k; i++ {
+		if siblings {
+			// siblings of one valid request: same method, same bias sequence, other criteria names and
+			// seeds - they meet inside the same components, which is where interference lives
+			if base == nil {
+				base = g.Valid()
+				items = append(items, item{body: JSONBytes(base.Body)})
+				continue
+			}
+			sib := RenameCriteria(CloneJ(base.Body).(map[string]interface{}), fmt.Sprintf("_%d", i))
+			if r.Bool(0.5) {
+				sib["biasApplyRandomSeed"] = float64(r.Range(0, 1000))
+			}
+			items = append(items, item{body: JSONBytes(sib)})
+			continue
+		}
 		if i > 0 && r.Bool(0.3) {
 			items = append(items, items[r.Intn(len(items))]) // identical requests running simultaneously
 			continue
